@@ -5,13 +5,17 @@ use serde_json::{json, Value};
 
 pub mod c01;
 pub mod c04;
+pub mod c08;
+pub mod c09;
 
-pub const ALL: &[&str] = &["C01", "C04"];
+pub const ALL: &[&str] = &["C01", "C04", "C08", "C09"];
 
 pub fn subchecks(prop: &str, tier: Tier) -> Vec<SubCheck> {
     match prop {
         "C01" => c01::subchecks(tier),
         "C04" => c04::subchecks(tier),
+        "C08" => c08::subchecks(tier),
+        "C09" => c09::subchecks(tier),
         _ => Vec::new(),
     }
 }
